@@ -101,6 +101,8 @@ pub use triangle3d::{PointInTriangle, Triangle3D};
 
 mod triangulation3d;
 pub use triangulation3d::Triangulation3D;
+#[cfg(feature = "verif")]
+pub use triangulation3d::VerifPiece;
 
 mod vector3d;
 pub use vector3d::Vector3D;
